@@ -810,7 +810,13 @@ class Arbiter(object):
             self._restarting = True
             logger.info('Arbiter exiting')
             self._stopping = True
-            yield self._stop_watchers(close_output_streams=True)
+            try:
+                yield self._stop_watchers(close_output_streams=True)
+            except Exception:
+                # the restart failed, the daemon goes on serving
+                self._restarting = False
+                self._stopping = False
+                raise
             if self._provided_loop:
                 cb = self.stop_controller_and_close_sockets
                 self.loop.add_callback(cb)
